@@ -59,7 +59,7 @@ ASSUMPTIONS = [
     "JS/CSS is compared modulo leading/trailing whitespace (the library caches `script.strip()`)",
 ]
 BOUNDS = {
-    "quick": {"attrs": 6000, "slot": 2000, "asset": 1000, "asset_enum": "all case variants x 10 tails x 2 positions"},
+    "quick": {"attrs": 18000, "slot": 6000, "asset": 3000, "asset_enum": "all case variants x 10 tails x 2 positions"},
     "thorough": {"attrs": 120000, "slot": 40000, "asset": 20000, "asset_enum": "all case variants x 10 tails x 2 positions x 3 entries"},
 }
 
